@@ -77,7 +77,7 @@ func genIssue(t *rapid.T, label string) Op {
 	op := Op{Kind: "issue"}
 	op.Legacy = rapid.Bool().Draw(t, label+"legacy")
 	op.Client = rapid.IntRange(0, 2).Draw(t, label+"client")
-	op.User = rapid.IntRange(0, 2).Draw(t, label+"user")
+	op.User = rapid.IntRange(0, 5).Draw(t, label+"user")
 	sc := []string{"openid"}
 	if rapid.IntRange(0, 19).Draw(t, label+"offline") != 13 {
 		sc = append(sc, "offline_access")
@@ -415,7 +415,7 @@ func (w *world) tables() (int, int) { return len(w.st.Refresh), len(w.st.Tokens)
 func (w *world) issue(i int, op Op) {
 	ci := op.Client % 3
 	cl := w.specs[ci]
-	user := vkit.UserIDs[op.User%3]
+	user := vkit.AllUserIDs[op.User%len(vkit.AllUserIDs)]
 	ag := w.agents[b2i(op.Legacy)]
 	q := vkit.AuthParams(cl, redirectOf(ci), "code", strings.Join(op.Scopes, " "), "st", fmt.Sprintf("nonce-%d", i))
 	verifier := ""
